@@ -162,7 +162,9 @@ impl<B: IoBufMut> Framer<B> for LengthDelimited {
             u64::from_le_bytes(len_bytes)
         } as usize;
 
-        if buf.len() < self.length_field_len + len {
+        // `len` is chosen by the peer: compare it with what is left after the
+        // length field instead of adding to it, which could overflow.
+        if buf.len() - self.length_field_len < len {
             return Ok(None);
         }
 
